@@ -299,6 +299,13 @@ def classify(v, syms=('u', 'v', 'w')):
     """('table', tt) | ('Q', triple) | ('raise', name) | ('undecided', why)"""
     if v[0] == 'raise':
         return ('raise', v[1])
+    if v[0] == 'either':
+        a, b = classify(v[2], syms), classify(v[3], syms)
+        if a == b:
+            return a
+        if 'undecided' in (a[0], b[0]):
+            return a if a[0] == 'undecided' else b
+        return ('either', (v[1], a, b))
     if v[0] == 'Q':
         t = norm_q(v)
         if t[1] is None or t[2] is None:
@@ -375,6 +382,10 @@ def check_chain(ctx, R, rule, modname, cls, aliases, oracle, unit,
 
 
 def render(c):
+    if c[0] == 'either':
+        t, a, b = c[1]
+        return (f'{render(a)} when `{t}` holds and {render(b)} otherwise '
+                '(a test that the operands\' values do not determine)')
     if c[0] == 'table':
         return 'truth table ' + ''.join('1' if b else '0' for b in c[1])
     if c[0] == 'Q':
